@@ -1,4 +1,149 @@
 import SMD.Spec.SetWF
 import SMD.Proofs.ValueOrder
+set_option linter.unusedSimpArgs false
 namespace SMD
+
+/-! ### order facts about three path elements, packaged for case analysis -/
+
+theorem PE.less_eq (a b : PE) : PE.less a b = (PE.compare a b == .lt) := rfl
+theorem PE.equals_eq (a b : PE) : PE.equals a b = (PE.compare a b == .eq) := by
+  rw [Bool.eq_iff_iff]; simp [PE.compare_eq_iff]
+
+/-- all transitivity facts relating `x y z`, expressed through `a = cmp x y`, `b = cmp y z`,
+`c = cmp x z` only -/
+def Consist (a b c : Ordering) : Prop :=
+  TrPack a b c ∧ TrPack c b.swap a ∧ TrPack a.swap c b ∧
+  TrPack b c.swap a.swap ∧ TrPack c.swap a b.swap ∧ TrPack b.swap a.swap c.swap
+
+theorem PE.consist (x y z : PE) :
+    Consist (PE.compare x y) (PE.compare y z) (PE.compare x z) := by
+  refine ⟨PE.compare_tr x y z, ?_, ?_, ?_, ?_, ?_⟩
+  · have := PE.compare_tr x z y; rwa [PE.compare_swap y z] at this
+  · have := PE.compare_tr y x z; rwa [PE.compare_swap x y] at this
+  · have := PE.compare_tr y z x; rwa [PE.compare_swap x z, PE.compare_swap x y] at this
+  · have := PE.compare_tr z x y; rwa [PE.compare_swap x z, PE.compare_swap y z] at this
+  · have := PE.compare_tr z y x
+    rwa [PE.compare_swap y z, PE.compare_swap x y, PE.compare_swap x z] at this
+
+/-! ### `PathElementSet` -/
+
+theorem peHas_peInsert (pe q : PE) :
+    ∀ l : List PE, peHas q (peInsert pe l) = (PE.equals pe q || peHas q l)
+  | [] => by
+    simp only [peInsert, peHas, PE.less_eq, PE.equals_eq]
+    cases PE.compare pe q <;> simp
+  | x :: xs => by
+    have ih := peHas_peInsert pe q xs
+    have h := PE.consist x pe q
+    cases h1 : PE.compare x pe <;> cases h2 : PE.compare pe q <;> cases h3 : PE.compare x q <;>
+      simp_all [Consist, TrPack, peHas, peInsert, PE.less_eq, PE.equals_eq]
+
+theorem sortedPEs_cons_peInsert (pe y : PE) :
+    ∀ l : List PE, PE.less y pe = true → sortedPEs (y :: l) = true →
+      sortedPEs (y :: peInsert pe l) = true
+  | [], hy, _ => by simp [peInsert, sortedPEs, hy]
+  | x :: xs, hy, hs => by
+    have hsw := PE.compare_swap x pe
+    simp only [sortedPEs, Bool.and_eq_true] at hs
+    have ih := sortedPEs_cons_peInsert pe x xs
+    cases h1 : PE.compare x pe <;>
+      simp_all [peInsert, sortedPEs, PE.less_eq, PE.equals_eq]
+
+theorem sortedPEs_peInsert (pe : PE) : ∀ l : List PE, sortedPEs l = true → sortedPEs (peInsert pe l) = true
+  | [], _ => by simp [peInsert, sortedPEs]
+  | x :: xs, hs => by
+    have hsw := PE.compare_swap x pe
+    have ih := sortedPEs_cons_peInsert pe x xs
+    cases h1 : PE.compare x pe <;>
+      simp_all [peInsert, sortedPEs, PE.less_eq, PE.equals_eq]
+
+theorem sortedPEs_foldl_peInsert (xs : List PE) :
+    ∀ s : List PE, sortedPEs s = true → sortedPEs (xs.foldl (fun s pe => peInsert pe s) s) = true := by
+  induction xs with
+  | nil => intro s hs; simpa using hs
+  | cons x xs ih => intro s hs; exact ih _ (sortedPEs_peInsert x s hs)
+
+theorem peHas_foldl_peInsert (q : PE) (xs : List PE) :
+    ∀ s : List PE, peHas q (xs.foldl (fun s pe => peInsert pe s) s)
+      = (xs.any (fun x => PE.equals x q) || peHas q s) := by
+  induction xs with
+  | nil => intro s; simp
+  | cons x xs ih =>
+    intro s
+    simp only [List.foldl_cons, List.any_cons, ih, peHas_peInsert]
+    cases PE.equals x q <;> cases xs.any (fun x => PE.equals x q) <;> simp
+
+/-! ### `PathElementMap` -/
+
+theorem pemGet_pemInsert {β : Type} (pe q : PE) (v : β) :
+    ∀ m : List (PE × β), pemGet q (pemInsert pe v m) = if PE.equals pe q then some v else pemGet q m
+  | [] => by
+    simp only [pemInsert, pemGet, PE.less_eq, PE.equals_eq]
+    cases PE.compare pe q <;> simp
+  | (x, w) :: xs => by
+    have ih := pemGet_pemInsert pe q v xs
+    have h := PE.consist x pe q
+    cases h1 : PE.compare x pe <;> cases h2 : PE.compare pe q <;> cases h3 : PE.compare x q <;>
+      simp_all [Consist, TrPack, pemGet, pemInsert, PE.less_eq, PE.equals_eq]
+
+theorem pemGet_foldl_pemInsert {β : Type} (q : PE) (xs : List (PE × β)) :
+    ∀ m : List (PE × β), pemGet q (xs.foldl (fun m x => pemInsert x.1 x.2 m) m)
+      = ((xs.reverse.find? (fun x => PE.equals x.1 q)).map (·.2)).or (pemGet q m) := by
+  induction xs with
+  | nil => intro m; simp
+  | cons x xs ih =>
+    intro m
+    simp only [List.foldl_cons, ih, pemGet_pemInsert, List.reverse_cons, List.find?_append]
+    cases h : List.find? (fun x => PE.equals x.1 q) xs.reverse <;>
+      cases hx : PE.equals x.1 q <;> simp [hx, List.find?]
+
+/-! ### `sort.Search` -/
+
+theorem sortSearch_go_spec (n : Nat) (f : Nat → Bool)
+    (hmono : ∀ i j, i ≤ j → j < n → f i = true → f j = true) (i j : Nat) :
+    i ≤ j → j ≤ n → (∀ k, k < i → f k = false) → (∀ k, j ≤ k → k < n → f k = true) →
+      i ≤ sortSearch.go f i j ∧ sortSearch.go f i j ≤ j ∧
+      (∀ k, k < sortSearch.go f i j → f k = false) ∧
+      (sortSearch.go f i j < n → f (sortSearch.go f i j) = true) := by
+  fun_induction sortSearch.go f i j with
+  | case1 i j hlt m hf ih =>
+    intro hij hjn hlo hhi
+    have hfm : f m = false := by simpa using hf
+    have hm : i ≤ m ∧ m < j := by simp only [m]; omega
+    obtain ⟨h1, h2, h3, h4⟩ := ih (by omega) hjn (by
+      intro k hk
+      cases hfk : f k with
+      | false => rfl
+      | true =>
+        have := hmono k m (by omega) (by omega) hfk
+        simp [hfm] at this) hhi
+    exact ⟨by omega, h2, h3, h4⟩
+  | case2 i j hlt m hf ih =>
+    intro hij hjn hlo hhi
+    have hfm : f m = true := by simpa using hf
+    have hm : i ≤ m ∧ m < j := by simp only [m]; omega
+    obtain ⟨h1, h2, h3, h4⟩ := ih (by omega) (by omega) hlo (by
+      intro k hk hkn
+      exact hmono m k hk hkn hfm)
+    exact ⟨h1, by omega, h3, h4⟩
+  | case3 i j hge =>
+    intro hij hjn hlo hhi
+    have : i = j := by omega
+    subst this
+    exact ⟨Nat.le_refl _, Nat.le_refl _, hlo, fun h => hhi i (Nat.le_refl _) h⟩
+
+
+theorem any_perm {α : Type} {xs ys : List α} (h : xs.Perm ys) (p : α → Bool) : xs.any p = ys.any p := by
+  rw [Bool.eq_iff_iff]
+  simp only [List.any_eq_true]
+  exact ⟨fun ⟨x, hx, hp⟩ => ⟨x, h.mem_iff.1 hx, hp⟩, fun ⟨x, hx, hp⟩ => ⟨x, h.mem_iff.2 hx, hp⟩⟩
+
+theorem sortSearch_spec (n : Nat) (f : Nat → Bool)
+    (hmono : ∀ i j, i ≤ j → j < n → f i = true → f j = true) :
+    sortSearch n f ≤ n ∧ (∀ i, i < sortSearch n f → f i = false) ∧
+      (sortSearch n f < n → f (sortSearch n f) = true) := by
+  obtain ⟨_, h2, h3, h4⟩ := sortSearch_go_spec n f hmono 0 n (Nat.zero_le _) (Nat.le_refl _)
+    (fun k hk => absurd hk (Nat.not_lt_zero k)) (fun k h1 h2 => absurd h2 (by omega))
+  exact ⟨h2, h3, h4⟩
+
 end SMD
